@@ -149,6 +149,16 @@ def gen_case(run_seed: int, tier: str, index: int = 0) -> dict:
                 pre_modes["m/" + name] = 0o600
         pre_files["m/" + dest] = "aa55"
         pre_files["m/unrelated.bin"] = "0102030405"
+        dd = st.rng("dotdot-dest")
+        if "/" not in dest and dd.random() < 0.3:
+            # the destination is spelled with a `..` that follows a missing directory, or a symlinked one whose parent is
+            # another directory: the lexically normalised path and the path the OS resolves are different files
+            # (the pre-existing neighbours above sit at the normalised names)
+            if dd.random() < 0.5:
+                dest = "staging/../" + dest
+            else:
+                pre_symlinks["m/lnk"] = os.path.join("..", "out")
+                dest = "lnk/../" + dest
     workers = r.choice([None, None, None, 1, 2, 3])
     options = {
         "size_threshold_bytes": thr,
